@@ -6,11 +6,13 @@ package main
 // itself delivered, and locks / leases from the calls it made.
 
 import (
+	"crypto/sha256"
 	"encoding/hex"
 	"fmt"
 	"sync"
 	"time"
 
+	"github.com/btcsuite/btcd/btcec/v2"
 	"github.com/btcsuite/btcd/btcec/v2/schnorr"
 	"github.com/btcsuite/btcd/btcutil"
 	"github.com/btcsuite/btcd/btcutil/hdkeychain"
@@ -18,23 +20,76 @@ import (
 	"github.com/btcsuite/btcd/chaincfg/chainhash"
 	"github.com/btcsuite/btcd/txscript"
 	"github.com/btcsuite/btcd/wire"
+	"github.com/btcsuite/btcwallet/waddrmgr"
 )
 
 // ownerT is the derivation path of a wallet script.
 type ownerT struct {
 	Scope  int // BIP-43 purpose: 44, 49, 84, 86
+	Coin   int // coin type of the key scope: 0 for the default scopes, 1 for the custom scope (84, 1)
 	Acct   uint32
 	Branch uint32
 	Index  uint32
 	AType  string // p2pkh | np2wpkh | p2wpkh | p2tr
+	// WatchOnly: the account was imported from an extended PUBLIC key (the
+	// wallet holds no private key of it).
+	WatchOnly bool
+	// Imported > 0: the i-th private key imported with ImportPrivateKey
+	// (account waddrmgr.ImportedAddrAccount of the scope it was imported
+	// into); Uncompressed: its address commits to the 65-byte public key.
+	Imported     int
+	Uncompressed bool
+	// PubOnly: imported WITHOUT its private key (ImportPublicKey)
+	PubOnly bool
 }
 
 const (
 	nAccounts   = 3
 	deriveLimit = 160
+	// woAcct is the number the watch-only accounts get: NextAccount created
+	// 1 .. nAccounts-1 before they are imported.
+	woAcct      = nAccounts
+	woLimit     = 48
+	importedAcc = uint32(waddrmgr.ImportedAddrAccount)
+	// the custom key scope: the purpose of BIP84 with another coin type
+	customCoin     = 1
+	customAccounts = 2
 )
 
 var purposes = []int{44, 49, 84, 86}
+
+// the scopes that get a watch-only (extended public key) account woAcct
+var woPurposes = []int{84, 86}
+
+// importedKey describes the private keys every harness wallet imports.
+type importedKey struct {
+	purpose      int
+	uncompressed bool
+	pubOnly      bool
+}
+
+var importedKeys = []importedKey{
+	{44, false, false}, // 1: P2PKH, compressed
+	{44, true, false},  // 2: P2PKH, UNcompressed
+	{84, false, false}, // 3: P2WPKH
+	{49, false, false}, // 4: nested P2WPKH
+	{86, false, false}, // 5: P2TR
+	{84, false, true},  // 6: P2WPKH, public key only (ImportPublicKey)
+}
+
+// importedPriv derives the i-th (1-based) imported private key from the seed.
+func importedPriv(seed []byte, i int) *btcec.PrivateKey {
+	h := sha256.Sum256(append(append([]byte("c06-imported-key"), seed...), byte(i)))
+	k, _ := btcec.PrivKeyFromBytes(h[:])
+	return k
+}
+
+// foreignSeed is the seed of the OTHER wallet whose account public keys are
+// imported as watch-only accounts.
+func foreignSeed(seed []byte) []byte {
+	h := sha256.Sum256(append([]byte("c06-foreign-wallet"), seed...))
+	return h[:]
+}
 
 // addrTypeOf is the address schema of the wallet's default scopes
 // (waddrmgr.ScopeAddrMap): BIP49 change addresses are native P2WPKH.
@@ -102,6 +157,90 @@ var (
 	tables  = map[string]deriveTable{}
 )
 
+// accountKey derives m/purpose'/coin'/acct' with hdkeychain's legacy rule.
+func accountKey(root *hdkeychain.ExtendedKey, purpose, coin int, acct uint32) (*hdkeychain.ExtendedKey, error) {
+	pk, err := root.DeriveNonStandard(hdkeychain.HardenedKeyStart + uint32(purpose)) // nolint:staticcheck
+	if err != nil {
+		return nil, err
+	}
+	ck, err := pk.DeriveNonStandard(hdkeychain.HardenedKeyStart + uint32(coin)) // nolint:staticcheck
+	if err != nil {
+		return nil, err
+	}
+	return ck.DeriveNonStandard(hdkeychain.HardenedKeyStart + acct) // nolint:staticcheck
+}
+
+func (t deriveTable) addAccount(ak *hdkeychain.ExtendedKey, purpose, coin int, acct uint32, limit uint32, wo bool,
+	params *chaincfg.Params) error {
+
+	for branch := uint32(0); branch < 2; branch++ {
+		bk, err := ak.DeriveNonStandard(branch) // nolint:staticcheck
+		if err != nil {
+			return err
+		}
+		for idx := uint32(0); idx < limit; idx++ {
+			k, err := bk.DeriveNonStandard(idx) // nolint:staticcheck
+			if err != nil {
+				return err
+			}
+			pub, err := k.ECPubKey()
+			if err != nil {
+				return err
+			}
+			at := addrTypeOf(purpose, branch)
+			if wo && purpose == 49 {
+				at = "np2wpkh"
+			}
+			script, err := scriptFor(pub.SerializeCompressed(), at, params)
+			if err != nil {
+				return err
+			}
+			t[hex.EncodeToString(script)] = &ownerT{Scope: purpose, Coin: coin, Acct: acct, Branch: branch, Index: idx,
+				AType: at, WatchOnly: wo}
+		}
+	}
+	return nil
+}
+
+// woAccountKey is the extended PUBLIC key of account 0 of the foreign wallet
+// in the given default scope (what the harness wallet imports as account woAcct).
+func woAccountKey(seed []byte, purpose int, params *chaincfg.Params) (*hdkeychain.ExtendedKey, uint32, error) {
+	root, err := hdkeychain.NewMaster(foreignSeed(seed), params)
+	if err != nil {
+		return nil, 0, err
+	}
+	ak, err := accountKey(root, purpose, 0, 0)
+	if err != nil {
+		return nil, 0, err
+	}
+	pub, err := ak.Neuter()
+	if err != nil {
+		return nil, 0, err
+	}
+	rp, err := root.ECPubKey()
+	if err != nil {
+		return nil, 0, err
+	}
+	fp := btcutil.Hash160(rp.SerializeCompressed())[:4]
+	return pub, uint32(fp[0])<<24 | uint32(fp[1])<<16 | uint32(fp[2])<<8 | uint32(fp[3]), nil
+}
+
+func importedScript(seed []byte, i int, params *chaincfg.Params) ([]byte, *ownerT, error) {
+	ik := importedKeys[i-1]
+	pub := importedPriv(seed, i).PubKey()
+	ser := pub.SerializeCompressed()
+	if ik.uncompressed {
+		ser = pub.SerializeUncompressed()
+	}
+	at := addrTypeOf(ik.purpose, 0)
+	script, err := scriptFor(ser, at, params)
+	if err != nil {
+		return nil, nil, err
+	}
+	return script, &ownerT{Scope: ik.purpose, Acct: importedAcc, AType: at, Imported: i, Uncompressed: ik.uncompressed,
+		PubOnly: ik.pubOnly}, nil
+}
+
 func tableFor(seed []byte, params *chaincfg.Params) (deriveTable, error) {
 	tableMu.Lock()
 	defer tableMu.Unlock()
@@ -114,44 +253,45 @@ func tableFor(seed []byte, params *chaincfg.Params) (deriveTable, error) {
 		return nil, err
 	}
 	t := deriveTable{}
+	// btcwallet's default key scopes fix the coin type to 0 on every network
 	for _, purpose := range purposes {
-		pk, err := root.DeriveNonStandard(hdkeychain.HardenedKeyStart + uint32(purpose)) // nolint:staticcheck
-		if err != nil {
-			return nil, err
-		}
-		// btcwallet's default key scopes fix the coin type to 0 on every network
-		ck, err := pk.DeriveNonStandard(hdkeychain.HardenedKeyStart + 0) // nolint:staticcheck
-		if err != nil {
-			return nil, err
-		}
 		for acct := uint32(0); acct < nAccounts; acct++ {
-			ak, err := ck.DeriveNonStandard(hdkeychain.HardenedKeyStart + acct) // nolint:staticcheck
+			ak, err := accountKey(root, purpose, 0, acct)
 			if err != nil {
 				return nil, err
 			}
-			for branch := uint32(0); branch < 2; branch++ {
-				bk, err := ak.DeriveNonStandard(branch) // nolint:staticcheck
-				if err != nil {
-					return nil, err
-				}
-				for idx := uint32(0); idx < deriveLimit; idx++ {
-					k, err := bk.DeriveNonStandard(idx) // nolint:staticcheck
-					if err != nil {
-						return nil, err
-					}
-					pub, err := k.ECPubKey()
-					if err != nil {
-						return nil, err
-					}
-					at := addrTypeOf(purpose, branch)
-					script, err := scriptFor(pub.SerializeCompressed(), at, params)
-					if err != nil {
-						return nil, err
-					}
-					t[hex.EncodeToString(script)] = &ownerT{Scope: purpose, Acct: acct, Branch: branch, Index: idx, AType: at}
-				}
+			if err := t.addAccount(ak, purpose, 0, acct, deriveLimit, false, params); err != nil {
+				return nil, err
 			}
 		}
+	}
+	// the custom scope (84, customCoin): BIP84's purpose, another coin type
+	for acct := uint32(0); acct < customAccounts; acct++ {
+		ak, err := accountKey(root, 84, customCoin, acct)
+		if err != nil {
+			return nil, err
+		}
+		if err := t.addAccount(ak, 84, customCoin, acct, deriveLimit, false, params); err != nil {
+			return nil, err
+		}
+	}
+	// watch-only accounts: account 0 of another wallet, by its public key
+	for _, purpose := range woPurposes {
+		ak, _, err := woAccountKey(seed, purpose, params)
+		if err != nil {
+			return nil, err
+		}
+		if err := t.addAccount(ak, purpose, 0, woAcct, woLimit, true, params); err != nil {
+			return nil, err
+		}
+	}
+	// imported private keys
+	for i := range importedKeys {
+		script, own, err := importedScript(seed, i+1, params)
+		if err != nil {
+			return nil, err
+		}
+		t[hex.EncodeToString(script)] = own
 	}
 	tables[key] = t
 	return t, nil
@@ -301,6 +441,20 @@ func (l *ledger) spender(op wire.OutPoint, except *chainhash.Hash) *ltx {
 	return nil
 }
 
+func (l *ledger) spenderIgnoring(op wire.OutPoint, except *chainhash.Hash, ignore map[chainhash.Hash]bool) *ltx {
+	for _, t := range l.txs {
+		if !t.alive || (except != nil && t.hash == *except) || ignore[t.hash] {
+			continue
+		}
+		for _, in := range t.tx.TxIn {
+			if in.PreviousOutPoint == op {
+				return t
+			}
+		}
+	}
+	return nil
+}
+
 // confirmedSpender: some known CONFIRMED transaction spends op.
 func (l *ledger) confirmedSpender(op wire.OutPoint) bool {
 	for _, t := range l.txs {
@@ -340,7 +494,8 @@ func (l *ledger) liveCoin(op wire.OutPoint) *coin {
 // reqView is what eligibility depends on besides the ledger.
 type reqView struct {
 	acct     uint32
-	scope    int // 0 = any
+	scope    int // purpose; 0 = any key scope
+	coin     int // coin type of the requested key scope
 	minconf  int32
 	maturity int32
 }
@@ -348,15 +503,21 @@ type reqView struct {
 // whyNot lists every reason op is not eligible for the request (empty =
 // eligible), in the property's words.
 func (l *ledger) whyNot(op wire.OutPoint, rv reqView, except *chainhash.Hash) []string {
+	return l.whyNotIgnoring(op, rv, except, nil)
+}
+
+// whyNotIgnoring: as whyNot, but spends by the transactions in ignore do not
+// count (transactions created concurrently with the one being judged).
+func (l *ledger) whyNotIgnoring(op wire.OutPoint, rv reqView, except *chainhash.Hash, ignore map[chainhash.Hash]bool) []string {
 	c := l.liveCoin(op)
 	if c == nil {
 		return []string{"unknown"}
 	}
 	var why []string
-	if c.own.Acct != rv.acct || (rv.scope != 0 && c.own.Scope != rv.scope) {
+	if c.own.Acct != rv.acct || (rv.scope != 0 && (c.own.Scope != rv.scope || c.own.Coin != rv.coin)) {
 		why = append(why, "foreign")
 	}
-	if l.spender(op, except) != nil {
+	if l.spenderIgnoring(op, except, ignore) != nil {
 		why = append(why, "spent")
 	}
 	if l.locks[op] {
